@@ -232,6 +232,12 @@ func (x *Exec) appendOp(st *State, s, t Value, resT types.Type) Value {
 	}
 	newLen := c.BVBin("bvadd", sn, tn)
 	fits := c.BVCmp("bvsle", newLen, sc)
+	if pcHas(st.PC, fits) { // the executor forked on the capacity test
+		fits = c.True()
+	} else if pcHas(st.PC, c.Not(fits)) {
+		fits = c.False()
+	}
+	x.noteSliceWrite(st, elem, sb, fits, x.curPos)
 	// source elements are read from the heap before the append
 	pre := st.Heap.clone()
 	preSt := &State{PC: st.PC, Heap: pre, Alloc: st.Alloc, Env: st.Env}
@@ -284,6 +290,7 @@ func (x *Exec) copyOp(st *State, d, s Value, resT types.Type) Value {
 	db, do, dn, _ := sliceParts(d)
 	sb, so, sn, _ := sliceParts(s)
 	n := c.Ite(c.BVCmp("bvslt", dn, sn), dn, sn)
+	x.noteSliceWrite(st, elem, db, c.BVCmp("bvsgt", n, c.BVI(0, 64)), x.curPos)
 	for k, lf := range lay.Leaves {
 		name := sliceComp(elem, k)
 		h := x.comp(st, name, lf.Sort)
@@ -325,6 +332,13 @@ func (x *Exec) intrinsic(fr *frame, st *State, q string, callee *ssa.Function, a
 		}
 		x.addObl(st, "lemma", sanitize(text), args[0].L[0], pos, text)
 		x.assume(st, args[0].L[0])
+		return Value{}, true
+	case verifrtPath + ".Ghost":
+		for s, t := range x.strLits {
+			if t == args[0].L[0] {
+				x.ghost[s] = args[1]
+			}
+		}
 		return Value{}, true
 	case verifrtPath + ".Cover":
 		sub := &State{PC: c.And(st.PC, args[0].L[0]), Heap: st.Heap, Alloc: st.Alloc}
@@ -529,7 +543,7 @@ func (x *Exec) applyContract(st *State, ct *Contract, callee *ssa.Function, args
 	st.Alloc = na
 	var res Value
 	if ct.Pure && resT != nil && len(ct.Ensures) == 0 && allScalar(args) {
-		res = x.pureResult(name, args, resT)
+		res = x.pureCallT(ct, args, resT)
 		x.assume(st, x.wfValueOrTuple(res, st.Alloc))
 	} else {
 		res = x.freshResult(st, short, resT)
@@ -589,6 +603,7 @@ func (x *Exec) havocTarget(env *evalEnv, st *State, m *Clause) {
 	}
 	base, off, ln, _ := sliceParts(v)
 	lay := LayoutOf(sl.Elem())
+	x.noteSliceWrite(st, sl.Elem(), base, nil, x.curPos)
 	for k, lf := range lay.Leaves {
 		name := sliceComp(sl.Elem(), k)
 		h := x.comp(st, name, lf.Sort)
@@ -721,6 +736,25 @@ func (x *Exec) cutLoopHeader(fr *frame, l *loopInfo, st *State) {
 	for i, inv := range lc.Invariants {
 		x.addObl(st, "inv-entry", fmt.Sprintf("loop%d.%d", l.ordinal, i+1), env.evalBool(inv.Expr), pos, "loop invariant holds on entry: "+inv.Text)
 	}
+	// loop frame: the arrays (as of loop entry) the loop may write
+	var lf *loopFrame
+	if lc.HasModifies {
+		lf = &loopFrame{ordinal: l.ordinal, fnName: fr.fn.Name(), bases: map[string][]*Term{}, alloc0: st.Alloc, targets: lc.Modifies}
+		for _, m := range lc.Modifies {
+			v := env.eval(m.Expr)
+			sl, ok := v.T.Underlying().(*types.Slice)
+			if !ok {
+				panic(fmt.Errorf("loop modifies clause %q: need a slice", m.Text))
+			}
+			k := typeKey(sl.Elem())
+			lf.bases[k] = append(lf.bases[k], v.L[0])
+		}
+		if fr.loopFrames == nil {
+			fr.loopFrames = map[*loopInfo]*loopFrame{}
+		}
+		fr.loopFrames[l] = lf
+	}
+	pre := &State{PC: st.PC, Heap: st.Heap.clone(), Alloc: st.Alloc, Env: st.Env}
 	// havoc: header phis, heap components written in the loop, allocation watermark
 	for _, ins := range b.Instrs {
 		phi, ok := ins.(*ssa.Phi)
@@ -744,8 +778,16 @@ func (x *Exec) cutLoopHeader(fr *frame, l *loopInfo, st *State) {
 		x.Notes.Assumed[fmt.Sprintf("loop %d of %s: whole heap havocked (callee without frame)", l.ordinal, QualName(fr.fn))] = true
 	} else {
 		for k, s := range mods {
-			st.Heap.comps[k] = x.C.Fresh("loop$"+k, compSort(k, s))
 			x.compSorts[k] = s
+			nc := x.C.Fresh("loop$"+k, compSort(k, s))
+			if lf != nil && strings.HasPrefix(k, "S|") {
+				// arrays outside the loop's frame keep their contents
+				elemKey := k[2:strings.LastIndex(k, "|")]
+				oldc := x.comp(pre, k, s)
+				bv := x.C.Var("q$b", RefSort)
+				x.assume(st, x.C.Forall([]*Term{bv}, x.C.Implies(x.C.Not(lf.allowed(x.C, elemKey, bv)), x.C.Eq(x.C.Select(nc, bv), x.C.Select(oldc, bv))), x.C.Select(nc, bv)))
+			}
+			st.Heap.comps[k] = nc
 		}
 	}
 	na := x.C.Fresh("alloc", IntSort)
@@ -760,6 +802,13 @@ func (x *Exec) cutLoopHeader(fr *frame, l *loopInfo, st *State) {
 		x.assume(st, x.wf(st.Env[phi], st.Alloc))
 	}
 	env.local = x.localResolver(fr, st, b)
+	if lf != nil {
+		// implicit invariant: the named slices still live in an array of the frame
+		for _, m := range lc.Modifies {
+			v := env.eval(m.Expr)
+			x.assume(st, lf.allowed(x.C, typeKey(v.T.Underlying().(*types.Slice).Elem()), v.L[0]))
+		}
+	}
 	for _, inv := range lc.Invariants {
 		x.assume(st, env.evalBool(inv.Expr))
 	}
@@ -806,7 +855,13 @@ func (x *Exec) checkBackEdge(fr *frame, l *loopInfo, st *State, from *ssa.BasicB
 		env.vars[k] = v
 	}
 	for i, inv := range lc.Invariants {
-		x.addObl(tmp, "inv-step", fmt.Sprintf("loop%d.%d", l.ordinal, i+1), env.evalBool(inv.Expr), pos, "loop invariant is preserved: "+inv.Text)
+		x.addOblSplit(tmp, "inv-step", fmt.Sprintf("loop%d.%d", l.ordinal, i+1), env.evalBool(inv.Expr), pos, "loop invariant is preserved: "+inv.Text)
+	}
+	if lf := fr.loopFrames[l]; lf != nil {
+		for _, m := range lc.Modifies {
+			v := env.eval(m.Expr)
+			x.addObl(tmp, "frame", fmt.Sprintf("loop%d.target", l.ordinal), lf.allowed(x.C, typeKey(v.T.Underlying().(*types.Slice).Elem()), v.L[0]), pos, "loop modifies "+m.Text+": the slice stays in an array of the loop's frame")
+		}
 	}
 	if lc.Decreases != nil {
 		before := x.ghost[fmt.Sprintf("$dec.%s.%d", fr.fn.Name(), l.ordinal)]
